@@ -265,6 +265,7 @@ def check(prop, tier, seed, replay, lock):
 
     # 1-2. tables regenerated from /repo
     from harness import extract
+    from harness.core import MalformedResult
     try:
         changed = extract.write_generated()
     except Exception as err:  # noqa: BLE001
@@ -316,11 +317,23 @@ def check(prop, tier, seed, replay, lock):
     mod = importlib.import_module(f"harness.props.{prop.lower()}")
     if replay:
         rec = json.load(open(replay))
-        res = mod.replay(ctx, rec["case"])
+        if rec["case"].get("kind") == "malformed-result":
+            try:
+                mod.run(ctx)
+                res = None
+            except MalformedResult as err:
+                res = str(err)
+        else:
+            res = mod.replay(ctx, rec["case"])
         log(f"[{prop}] replay: {'FAILS' if res else 'passes'} {res or ''}")
         return 1 if res else 0
     try:
         mod.run(ctx)
+    except MalformedResult as err:
+        # the implementation returned an object whose own attributes raise: that is its failure, not the harness's
+        ctx.fail({"kind": "malformed-result", "trace": traceback.format_exc()[-1500:]},
+                 f"a returned polynomial is unreadable: {err}", ["malformed-result", "wf"])
+        ctx.notes.append("run stopped at the first unreadable result")
     except Exception as err:  # noqa: BLE001
         traceback.print_exc()
         log(f"[{prop}] harness error: {type(err).__name__}: {err}")
